@@ -410,6 +410,11 @@ def claim_elisp_char(cx, res, kf):
         kind, payload = K.classify_return(eng, t)
         cs = K.calls(st)
         if kind == "ok" and not cs and isinstance(payload, Int):
+            # C17: a byte above 0x7F - as the character itself or after the backslash - starts a UTF-8 sequence that has to be decoded
+            # and validated (decode_utf8_sequence); it never becomes a character by itself (Latin-1 style)
+            res.must_be_unsat(pc + [z3.ULT(i0, rd.len), z3.UGT(ini, bv(127))], "`?<byte above 0x7F>` becomes a character without UTF-8 decoding")
+            res.must_be_unsat(pc + [z3.ULT(i0 + 1, rd.len), ini == bv(ord("\\")), z3.UGT(nxt, bv(127))],
+                              "`?\\<byte above 0x7F>` becomes a character without UTF-8 decoding (a stray continuation byte is accepted)")
             r, _ = res.solve(pc + [ini != bv(ord("\\")), z3.ULE(ini, bv(127))])
             if r == z3.sat:
                 seen["plain"] += 1
@@ -423,6 +428,11 @@ def claim_elisp_char(cx, res, kf):
                 res.must_be_unsat(pc + [ini == bv(ord("\\")), z3.Not(eof1), z3.Or(*[nxt == bv(c) for c in ESC]),
                                         z3.Not(z3.And(payload.e == z3.ZeroExt(24, nxt), st.notes["idx"] == i0 + 2))],
                                   "`?\\c` for c in ()[]\;|'`#., does not read as c")
+        elif kind == "err" and not cs and not (isinstance(payload, Opaque) and payload.attrs.get("kind") == "io"):
+            # completeness: `?c` for a plain ASCII character is rejected only for the five delimiters that must be written with a backslash
+            res.must_be_unsat(pc + [z3.ULT(i0, rd.len), i0 != rd.err_at, ini != bv(ord("\\")), z3.ULE(ini, bv(127)),
+                                    z3.Not(z3.Or(*[ini == bv(c) for c in b"()[];"]))],
+                              "`?c` is rejected for a plain ASCII character other than ( ) [ ] ; (the printer writes such characters unescaped)")
         elif kind == "ok" and cs and cs[0][1] == "decode_elisp_hex_escape":
             seen["hex"] += 1
             n = cs[0][4].e
@@ -690,7 +700,7 @@ CLAIMS += [
     Claim("c02_elisp_char", "C02", "quick", claim_elisp_char,
           "`?c` reads as c, `?\\c` for c in ()[]\;|'`#., reads as c, `?\\x<hex>` as that (valid) scalar value; the hex loop "
           "accumulates n*16+d and stops before the first non-hex byte",
-          "every initial / lookahead byte; any number of hex digits (loop induction)", configs=("fast",), also=("C13",)),
+          "every initial / lookahead byte; any number of hex digits (loop induction)", configs=("fast",), also=("C13", "C17", "C03")),
     Claim("c02_digit_loops", "C02", "quick", claim_digit_loops,
           "digit accumulators of `\\NNN` (n0 = first digit, n*8+d, stops before a non-octal byte), `\\uNNNN` / `\\UNNNNNNNN` "
           "(n0 = 0, exactly `count` hex digits, n*16+d) and `#\\x<hex>` (n0 = 0, n*16+d up to a delimiter / EOF, `no digits` "
